@@ -543,11 +543,11 @@ def mock_terminal(w, S, R, cols, rows, col, row, **over):
 
 def state_invariant(st, S, R, cols, rows, strict_pending=True):
     """-> None | description of the first violated invariant of a terminal state."""
-    cur = st[R["cursor"]]
+    cur = st.get(R["cursor"])
     if not (isinstance(cur, tuple) and cur[0] == "obj"):
         return None
     c, r = cur[2].get("col"), cur[2].get("row")
-    pw = st[R["pending_wrap"]]
+    pw = st.get(R["pending_wrap"])
     if isinstance(c, int) and not 0 <= c <= cols:
         return "cursor column %d on a %d-column screen" % (c, cols)
     if isinstance(r, int) and not 0 <= r < rows:
@@ -557,7 +557,7 @@ def state_invariant(st, S, R, cols, rows, strict_pending=True):
             return "cursor past the last column (col == cols == %d) without wrap-pending" % cols
         if strict_pending and pw and c != cols:
             return "wrap-pending set with the cursor at column %d of %d (a state the dump cannot express: it infers a pending wrap from col >= cols)" % (c, cols)
-    tm, bm = st[R["top_margin"]], st[R["bottom_margin"]]
+    tm, bm = st.get(R["top_margin"]), st.get(R["bottom_margin"])
     if isinstance(tm, int) and isinstance(bm, int):
         if not (0 <= tm and bm <= rows - 1 and (tm < bm or rows == 1 and tm == bm == 0)):
             return "scroll region %d..%d on a %d-row screen (needs 0 <= top < bottom <= rows-1)" % (tm, bm, rows)
